@@ -34,3 +34,56 @@ package merkledag
 //@ func (*ProtoNode).Links
 //@   assumed
 //@   modifies fields(n)
+
+// ---- C12: DAG walks report the right CIDs ------------------------------------------------
+// (Cid).Hash is a deterministic function of the CID
+//@ spec cidHash(c cid.Cid) mh.Multihash
+//@ func ext (github.com/ipfs/go-cid.Cid).Hash
+//@   ensures result == cidHash(c)
+//@ func iface github.com/ipfs/boxo/provider.MultihashProvider.StartProviding
+
+// sequential walker: the error handler and the provider receive the CID whose links were
+// just requested; children are walked one level deeper; the root is skipped only at depth 0
+//@ func sequentialWalkDepth
+//@   prop C12
+//@   arith int-assumed
+//@   requires options != nil && 0 <= depth
+//@   modifies all
+//@   dyn callparam:getLinks noeffect
+//@   dyn callparam:visit noeffect
+//@   dyn callfield:ErrorHandler noeffect
+//@   site[visit_this_node] callparam:visit : arg0 == root && arg1 == depth
+//@   site[links_of_this_node] callparam:getLinks : arg1 == root
+//@   site[handler_gets_failing_cid] callfield:ErrorHandler : arg0 == root && arg1 == res("callparam:getLinks#0", 1)
+//@   site[provide_this_node] invoke:StartProviding : len(arg2) == 1 && arg2[0] == cidHash(root)
+//@   site[provide_only_fetched] invoke:StartProviding : res("callparam:getLinks#0", 1) == nil || res("callfield:ErrorHandler#0") == nil
+//@   site[children_one_deeper] call:sequentialWalkDepth : arg3 == depth + 1 && arg2 == lnk.Cid && arg5 == options
+
+// worker of the parallel walker (free variables: feed, options, visit, visitlk, getLinks, ctx, root, errChan, fetchersCtx, out, done)
+//@ func parallelWalkDepth$1
+//@   prop C12
+//@   arith int-assumed
+//@   modifies all
+//@   dyn callparam:getLinks noeffect
+//@   dyn callparam:visit noeffect
+//@   dyn callfield:ErrorHandler noeffect
+//@   site[visit_this_node] callparam:visit : arg0 == ci && arg1 == depth
+//@   site[links_of_this_node] callparam:getLinks : arg1 == ci
+//@   site[handler_gets_failing_cid] callfield:ErrorHandler : arg0 == ci && arg1 == res("callparam:getLinks#0", 1)
+//@   site[provide_this_node] invoke:StartProviding : len(arg2) == 1 && arg2[0] == cidHash(ci)
+//@   site[children_one_deeper] select-send:out : arg0.depth == depth + 1 && arg0.links == links
+
+// composing error handlers: the composed handler must call the handler that was installed
+// before, not re-read wo.ErrorHandler (which by then is the composed handler itself)
+//@ func (*walkOptions).addHandler$1
+//@   prop C12
+//@   arith int
+//@   modifies all
+//@   site[never_rereads_the_field] callfield:ErrorHandler : false
+//@ func (*walkOptions).addHandler
+//@   prop C12
+//@   arith int
+//@   requires wo != nil && handler != nil
+//@   modifies wo.ErrorHandler
+//@   ensures[installed] wo.ErrorHandler != nil
+//@   ensures[first_handler_direct] old(wo.ErrorHandler) == nil ==> wo.ErrorHandler == handler
